@@ -763,6 +763,17 @@ def replay(case):
     return [m for _, m in fails]
 
 
+def SETUP(tier):
+    """Run once in the parent: sweep scratch directories left by workers of an earlier run that were killed
+    (time cap / pool.terminate) before their `finally` ran.  Only directories of this property whose pid is dead."""
+    import re
+
+    for name in os.listdir("/dev/shm"):
+        m = re.fullmatch(r"verif-C21-(\d+)", name)
+        if m and not os.path.exists(f"/proc/{m.group(1)}"):
+            shutil.rmtree(os.path.join("/dev/shm", name), ignore_errors=True)
+
+
 # ------------------------------------------------------------------ classifiers for known findings
 def _ignore_plain_string(case):
     """COLLISION_IGNORE set in env.d without SPACE_SEPARATED: collapse_envd returns a str and
